@@ -299,6 +299,10 @@ func (p *parser) checkAlias(mAlias ast.Alias, typeSensitive bool, start int, cac
 				argParser := &parser{
 					tokens: tokens,
 					errorHandler: func(err ddperror.Error) {
+						if err.Level != ddperror.LEVEL_ERROR {
+							p.errorHandler(err) // a warning does not disqualify the alias
+							return
+						}
 						reported_errors = append(reported_errors, err)
 						cached_arg.Errors = append(cached_arg.Errors, err)
 					},
@@ -481,12 +485,25 @@ func (p *parser) InstantiateGenericFunction(genericFunc *ast.FuncDecl, genericTy
 
 	declParser.module.Ast.Faulty = declModuleFaulty
 
-	if errorCollector.DidError() {
-		// remove the instantiation as we errored
-		genericFunc.Generic.Instantiations[genericModule] = slices.DeleteFunc(genericFunc.Generic.Instantiations[genericModule], func(f *ast.FuncDecl) bool { return f == &decl })
+	// only errors make the instantiation fail, warnings (e.g. for '...') are passed on like those of any other function
+	errs := make([]ddperror.Error, 0, len(errorCollector.Errors))
+	for _, err := range errorCollector.Errors {
+		if err.Level == ddperror.LEVEL_ERROR {
+			errs = append(errs, err)
+		}
 	}
 
-	return &decl, errorCollector.Errors
+	if len(errs) != 0 {
+		// remove the instantiation as we errored
+		genericFunc.Generic.Instantiations[genericModule] = slices.DeleteFunc(genericFunc.Generic.Instantiations[genericModule], func(f *ast.FuncDecl) bool { return f == &decl })
+		return &decl, errs
+	}
+
+	for _, warning := range errorCollector.Errors {
+		p.errorHandler(warning)
+	}
+
+	return &decl, nil
 }
 
 func (p *parser) generateGenericContext(fun ast.GenericContext, params []ast.ParameterInfo, genericTypes map[string]ddptypes.Type) ast.GenericContext {
